@@ -91,13 +91,29 @@ VALUES = {"input": ["in", "in2"], "output": ["out", "out2"], "salt": ["s1", "s2"
           "addrs": ["10.1.0.0/16", "44.0.0.0/8,200.1.2.3"], "hostbits": ["0", "17"]}
 
 
-def build(assign):
-    """assign: name -> (source in 'c','f','b', [values])"""
+ABBREV = {"reserved": "--reserved-w", "words": "--sensitive-w", "asn": "--as-n", "salt": "--sal", "dump": "--dump-ip", "prefixes": "--preserve-pre",
+          "addrs": "--preserve-a", "hostbits": "--preserve-h", "input": "--inp", "output": "--outp"}
+
+
+def build(assign, style=None):
+    """assign: name -> (source in 'c','f','b', [values]); style: None (flag and value as two arguments) or a random source
+    choosing per option among the spellings argparse accepts (`-rX`, `--long=X`, unambiguous abbreviation `--lon=X`)"""
     argv, cfg, words = [], [], []
     for name, (src, vals) in assign.items():
         flag, key, isflag = OPTS[name]
         if src in ("c", "b"):
-            argv += [flag] if isflag else [flag, vals[0]]
+            # (other spellings than "flag value": configargparse then also parses - and type-checks - the config file's value of the
+            #  same option, so they are used only where that value cannot be ill-typed: string- and list-valued options, or no config entry)
+            ok_style = style is not None and not isflag and vals[0] != "" and not vals[0].startswith("-") and (src == "c" or name != "hostbits")
+            k_ = style.random() if ok_style else 1.0
+            if k_ < 0.25 and len(flag) == 2:
+                argv += [flag + vals[0]]
+            elif k_ < 0.45:
+                argv += ["--" + key + "=" + vals[0]]
+            elif k_ < 0.6 and name in ABBREV:
+                argv += [ABBREV[name] + "=" + vals[0]]
+            else:
+                argv += [flag] if isflag else [flag, vals[0]]
             words.append("%s:c:%s" % (name, "-" if isflag else hx(vals[0])))
         if src in ("f", "b"):
             v = vals[-1]
@@ -147,8 +163,8 @@ def cli_scope(res, pid, rng, tier):
             rng.shuffle(vals)
             assign[name] = (src, vals)
         cases.append(assign)
-    for assign in cases:
-        argv, cfg, line = build(assign)
+    for ci, assign in enumerate(cases):
+        argv, cfg, line = build(assign, style=rng if ci % 2 else None)
         if any(v == "" for v in argv) and False:
             continue
         sess.op(line, lambda argv=argv, cfg=cfg: impl_outcome(argv, cfg), {"argv": argv, "config_file": cfg})
@@ -182,6 +198,9 @@ def cli_scope(res, pid, rng, tier):
                 bad = "the number of preserved host bits given by the user is not the one applied"
             elif not has("prefixes") and f["prefixes"] != show_opt_l("0.0.0.0/1,128.0.0.0/2,192.0.0.0/3,224.0.0.0/4,10.0.0.0/8,172.16.0.0/12,192.168.0.0/16".split(",")):
                 bad = "default preserved prefixes (classes + private) not applied"
+            elif any(has(n_) and f[k_] != show_opt_l((_effective(line, n_) or "").split(",")) for n_, k_ in
+                     (("reserved", "reserved"), ("words", "words"), ("asn", "asn"), ("prefixes", "prefixes"))):
+                bad = "a list-valued option does not reach the library with the value given (command line over config file)"
             elif has("private") and not f["nets"].endswith(show_opt_l(["10.0.0.0/8", "172.16.0.0/12", "192.168.0.0/16"])[1:]):
                 bad = "--preserve-private-addresses is not the same as listing the three RFC 1918 networks"
             if bad:
@@ -224,18 +243,24 @@ def cli_scope(res, pid, rng, tier):
     # real runs: --preserve-private-addresses gives the same files as listing the three networks, also next to other options
     from .ip_checks import run_cli
     body = "".join("ip host %s\n" % a for a in ("10.9.8.7", "172.16.5.4", "192.168.7.7", "11.11.3.4", "11.12.3.4", "9.8.7.6", "100.64.12.34", "100.100.3.17", "96.1.2.3",
-                                                "200.1.1.1", "8.8.8.8", "172.32.0.1", "192.169.0.1"))
-    for extra in ([], ["--preserve-addresses", "11.11.0.0/16"], ["--preserve-prefixes", "0.0.0.0/1"], ["--preserve-prefixes", "12.0.0.0/8", "--preserve-addresses", "9.8.0.0/16"]):
+                                                "200.1.1.1", "8.8.8.8", "172.32.0.1", "192.169.0.1", "10.200.3.77", "10.1.1.9", "10.1.2.9", "172.31.255.254", "192.168.200.1"))
+    for extra in ([], ["--preserve-addresses", "11.11.0.0/16"], ["--preserve-prefixes", "0.0.0.0/1"], ["--preserve-prefixes", "12.0.0.0/8", "--preserve-addresses", "9.8.0.0/16"],
+                  ["--preserve-addresses", "10.1.1.0/24"], ["--preserve-addresses", "172.16.5.4,192.168.0.0/24,10.0.0.0/9"]):
         a1 = ["-a", "-s", "eq"] + extra + ["--preserve-private-addresses"]
         lst = "10.0.0.0/8,172.16.0.0/12,192.168.0.0/16"
         if "--preserve-addresses" in extra:
             i_ = extra.index("--preserve-addresses")
             a2 = ["-a", "-s", "eq"] + extra[:i_] + ["--preserve-addresses", extra[i_ + 1] + "," + lst] + extra[i_ + 2:]
+            a3 = ["-a", "-s", "eq"] + extra[:i_] + ["--preserve-addresses", lst + "," + extra[i_ + 1]] + extra[i_ + 2:]
         else:
             a2 = ["-a", "-s", "eq"] + extra + ["--preserve-addresses", lst]
+            a3 = ["-a", "-s", "eq"] + extra + ["--preserve-addresses", ",".join(reversed(lst.split(",")))]
         s1, o1, _ = run_cli(a1, {"a.cfg": body})
         s2, o2, _ = run_cli(a2, {"a.cfg": body})
-        res.evaluations += 2
+        s3, o3, _ = run_cli(a3, {"a.cfg": body})
+        res.evaluations += 3
+        if (s1, o1) == (s2, o2) and (s3, o3) != (s2, o2):
+            a2, s2, o2 = a3, s3, o3          # the listing in the other order
         if s1 != s2 or o1 != o2:
             la, lb = (o1.get("a.cfg") or "").split("\n"), (o2.get("a.cfg") or "").split("\n")
             k = next((i for i, (x, y) in enumerate(zip(la, lb)) if x != y), 0)
